@@ -10,7 +10,7 @@
 (* recorded, the logged post-state is adopted, and the rest of the trace   *)
 (* is still judged.  Finish prints exactly one verdict line per trace.     *)
 (***************************************************************************)
-EXTENDS AnsiOps
+EXTENDS ChangePoints
 
 Batch == JsonDeserialize(IOEnv.VERIF_BATCH)      \* Seq([id, nregs, ev])
 NTraces == Len(Batch)
@@ -39,7 +39,7 @@ Step ==
   /\ l <= Len(Batch[tid].ev)
   /\ LET e    == Batch[tid].ev[l]
          post == ApplyUpd(heap, e.upd)
-         cl   == Clauses(e, heap, post)
+         cl   == Clauses(e, heap, post) \o DriftClauses(e, heap, post)
          bad  == SelectSeq(cl, LAMBDA c : ~c[3])
      IN /\ heap' = post
         /\ fails' = fails \o [i \in DOMAIN bad |-> <<l, bad[i][1]>>]
